@@ -162,7 +162,33 @@ def check_property_file(ctx, fname=None):
     ctx.obligation("print_assumptions_under_every_theorem", n_print >= len([n for n in names]), "theorems=%d prints=%d" % (len(names), n_print))
     ctx.obligation("only_stdlib_axioms", not unknown, sorted(unknown))
     ctx.extra["print_assumptions_closed"] = closed
+    if ctx.tier == "thorough":
+        coqchk(ctx)
     return True
+
+
+def coqchk(ctx):
+    """Thorough tier: re-check the property's compiled file and everything it depends on with the independent
+    checker, and read the axioms it reports."""
+    pid = ctx.pid
+    t = time.time()
+    p = subprocess.run(["timeout", "3000", "coqchk", "-silent", "-o", "-R", ".", "PV", "PV.Properties.%s" % pid],
+                       cwd=COQ, stdout=subprocess.PIPE, stderr=subprocess.STDOUT, text=True)
+    out = p.stdout
+    ctx.checker_cmds.append("cd /verif/coq && coqchk -silent -o -R . PV PV.Properties.%s" % pid)
+    m = re.search(r"\* Axioms:(.*?)\n\s*\n\* Constants/Inductives relying on type-in-type:(.*?)\n\s*\n\* Constants/Inductives relying on unsafe \(co\)fixpoints:(.*?)\n\s*\n\* Inductives whose positivity is assumed:(.*?)(\n|$)", out, re.S)
+    ok = p.returncode == 0 and m is not None
+    detail = out[-1500:]
+    if ok:
+        axioms = [a.strip() for a in m.group(1).replace("<none>", "").split("\n") if a.strip()]
+        unknown = [a for a in axioms if a not in STDLIB_AXIOMS and a.split(".")[-1] not in STDLIB_AXIOMS
+                   and not any(a.endswith(x) for x in STDLIB_AXIOMS)]
+        unsafe = [g.strip() for g in (m.group(2), m.group(3), m.group(4)) if g.strip() != "<none>"]
+        ok = not unknown and not unsafe
+        ctx.extra["coqchk_axioms"] = axioms
+        detail = {"unknown_axioms": unknown, "unsafe": unsafe}
+    ctx.extra["coqchk_wall_s"] = round(time.time() - t)
+    ctx.obligation("coqchk_independent_recheck", ok, detail)
 
 
 def coq_eval(ctx, name, body, timeout=900):
